@@ -169,3 +169,87 @@ func BuildSeeds(seed uint64, rich bool) []Seed {
 	}
 	return out
 }
+
+// WideSeeds: valid files with a small payload but a long row - the sizes of WideWidths x WideHeights
+// (around the 1024 / 2048 / 4096-entry row buffers; heights 1..4: no line pair, one pair, pair + single
+// last row, two pairs) - as lossy, lossy+alpha (VP8X + ALPH + VP8), lossless and as ANMF frames of a
+// two-frame animation (frame 0 canvas-sized, frame 1 a sub-frame with DisposeBackground). Content is
+// flat / gradient / sparse marks, so every file is a few hundred bytes to a few KB. every > 1 keeps each
+// every-th (w, h) pair per kind, rotated by the seed.
+func WideSeeds(seed uint64, every int) []Seed {
+	var out []Seed
+	if every < 1 {
+		every = 1
+	}
+	k := 0
+	for _, w := range WideWidths {
+		for _, h := range WideHeights {
+			k++
+			for kind := 0; kind < 4; kind++ {
+				if (k+kind+int(seed))%every != 0 {
+					continue
+				}
+				r := NewRNG(seed, 0xD1DE0000+uint64(k*4+kind))
+				cheap := r.Intn(NumCheapClasses)
+				name := fmt.Sprintf("wide/%dx%d/%s/", w, h, cheapNames[cheap])
+				o := webp.DefaultOptions()
+				o.Method = 1 + r.Intn(4)
+				o.Quality = float32([]int{30, 75, 90}[r.Intn(3)])
+				switch kind {
+				case 0: // lossy, opaque
+					out = append(out, Seed{name + "lossy", mustEncode(GenCheapImage(r, w, h, cheap, AlphaNone), o), true})
+				case 1: // lossy + alpha
+					o.AlphaCompression = r.Intn(2)
+					o.AlphaFiltering = r.Intn(3)
+					acls := []int{AlphaGradient, AlphaBinary, AlphaSparse, AlphaSemiFlat}[r.Intn(4)]
+					out = append(out, Seed{name + "lossy+alpha=" + alphaClassNames[acls], mustEncode(GenCheapImage(r, w, h, cheap, acls), o), true})
+				case 2: // lossless
+					o.Lossless = true
+					acls := []int{AlphaNone, AlphaGradient, AlphaSparse}[r.Intn(3)]
+					out = append(out, Seed{name + "lossless/alpha=" + alphaClassNames[acls], mustEncode(GenCheapImage(r, w, h, cheap, acls), o), true})
+				case 3: // animation: ANMF frames of both codecs
+					m := mux.NewMuxer()
+					f0 := GenCheapImage(r, w, h, cheap, AlphaGradient)
+					file := mustEncode(f0, o)
+					d, err := mux.NewDemuxer(file)
+					if err != nil {
+						continue
+					}
+					fr, err := d.Frame(0)
+					if err != nil {
+						continue
+					}
+					data := fr.Data
+					if len(fr.AlphaData) > 0 {
+						data = alphPrefixed(fr.AlphaData, fr.Data)
+					}
+					_ = m.AddFrame(data, &mux.FrameOptions{Duration: 40, DisposeMode: mux.DisposeMode(r.Intn(2))})
+					// sub-frame: full width (or starting at x = 1000), all rows but the first, dispose to background
+					ox := 0
+					if r.Bool() && w > 1002 {
+						ox = 1000
+					}
+					oy := 0
+					if h > 1 {
+						oy = 2 * ((h - 1) / 2)
+						if oy >= h {
+							oy = 0
+						}
+					}
+					o2 := webp.DefaultOptions()
+					o2.Lossless = true
+					o2.Method = 2
+					sub := GenCheapImage(r, w-ox, h-oy, (cheap+1)%NumCheapClasses, AlphaBinary)
+					_ = m.AddFrame(firstChunkPayload(mustEncode(sub, o2)), &mux.FrameOptions{Duration: 50, OffsetX: ox, OffsetY: oy, DisposeMode: mux.DisposeBackground, BlendMode: mux.BlendMode(r.Intn(2))})
+					small := GenCheapImage(r, mini(w, 9), 1, CheapGradient, AlphaSemiFlat)
+					_ = m.AddFrame(firstChunkPayload(mustEncode(small, o2)), &mux.FrameOptions{Duration: 60, OffsetX: 2 * r.Intn(3), BlendMode: mux.BlendAlpha})
+					var buf bytes.Buffer
+					if err := m.Assemble(&buf); err == nil {
+						out = append(out, Seed{name + "anim", buf.Bytes(), false})
+					}
+				}
+			}
+		}
+	}
+	return out
+}
